@@ -61,6 +61,32 @@ func genericFixed() error {
 	if rg.Has() || rg.Get() != nil || ecs.GetResource[gRes](&gg.w) != nil {
 		return fmt.Errorf("Resource still present after Remove")
 	}
+	// one value per type per world, whatever path replaced it: by ID, by a second mapper, by the
+	// package functions, across Reset
+	v1 := &gRes{V: 1}
+	rg.Add(v1)
+	gg.w.Resources().Remove(rg.ID())
+	v2 := &gRes{V: 2}
+	gg.w.Resources().Add(rg.ID(), v2)
+	rg2 := generic.NewResource[gRes](&gg.w)
+	if rg.Get() != v2 || rg2.Get() != v2 || ecs.GetResource[gRes](&gg.w) != v2 {
+		return fmt.Errorf("Resource.Get returns a stale pointer after the resource was replaced through its ID")
+	}
+	rg2.Remove()
+	v3 := &gRes{V: 3}
+	rg2.Add(v3)
+	if rg.Get() != v3 || !rg.Has() {
+		return fmt.Errorf("Resource.Get returns a stale pointer after the resource was replaced through another mapper")
+	}
+	gg.w.Reset()
+	if rg.Has() || rg.Get() != nil || rg2.Get() != nil {
+		return fmt.Errorf("Resource still present after World.Reset")
+	}
+	v4 := &gRes{V: 4}
+	ecs.AddResource(&gg.w, v4)
+	if rg.Get() != v4 || rg2.Get() != v4 {
+		return fmt.Errorf("Resource.Get returns a stale pointer after Reset and AddResource")
+	}
 	return nil
 }
 
@@ -125,6 +151,50 @@ func genericRelation() error {
 	after := count()
 	if before != 2 || during != 2 || after != 2 {
 		return fmt.Errorf("filter with fixed relation target selects %d before, %d while and %d after being registered; the core RelationFilter selects 2", before, during, after)
+	}
+	// a fixed *zero* target selects the entities that have the relation but no target, like the
+	// core RelationFilter with the zero entity — used directly, as a filter value, and registered
+	for i := 0; i < 2; i++ {
+		a := gg.w.NewEntity(gg.rel, gg.ids[0])
+		b := gc.w.NewEntity(gc.rel, gc.ids[0])
+		if a != b {
+			return fmt.Errorf("handles differ for target-less relation entities")
+		}
+	}
+	coreZero := ecs.NewRelationFilter(ecs.All(gc.rel), ecs.Entity{})
+	qc := gc.w.Query(&coreZero)
+	wantZero := qc.Count()
+	qc.Close()
+	fz := generic.NewFilter1[GRel]().WithRelation(generic.T[GRel](), ecs.Entity{})
+	countZ := func() int {
+		q := fz.Query(&gg.w)
+		n := 0
+		for q.Next() {
+			if !q.Relation().IsZero() {
+				n += 1000
+			}
+			n++
+		}
+		return n
+	}
+	zb := countZ()
+	qv := gg.w.Query(fz.Filter(&gg.w))
+	zv := qv.Count()
+	qv.Close()
+	fz.Register(&gg.w)
+	zd := countZ()
+	extra := gg.w.NewEntity(gg.rel, gg.ids[0])
+	gg.w.Relations().Set(extra, gg.rel, t1g)
+	zd2 := countZ()
+	gg.w.RemoveEntity(extra)
+	fz.Unregister(&gg.w)
+	if zb != wantZero || zv != wantZero || zd != wantZero || zd2 != wantZero {
+		return fmt.Errorf("generic filter fixed to the zero target selects %d / %d (as value) / %d, %d (registered); the core RelationFilter with the zero entity selects %d", zb, zv, zd, zd2, wantZero)
+	}
+	if e := gc.w.NewEntity(gc.rel, gc.ids[0]); e != extra {
+		return fmt.Errorf("handles differ")
+	} else {
+		gc.w.RemoveEntity(e)
 	}
 	// Exchange: the relation is part of the configuration whatever the order of the builder calls
 	for order := 0; order < 3; order++ {
